@@ -491,6 +491,13 @@ def f7(ctx):
                             e0 = ne[-1]
                             isnone = (e0.data['outcome'] == 'T') == (e0.data['label'] == 'res_is_err')
                             nb = [type('E', (), {'data': {'outcome': 'T' if isnone else 'F'}})()]
+                    if not nb and len(tw) == 1:
+                        # `self.terminated = res.is_err()`: the flag is assigned the predicate itself (true exactly on the end;
+                        # on a value it stays false, which is what it was on this `terminated:F` path)
+                        w = tw[0].data['val']
+                        if w is not None and w[0] == 'call' and w[2] == 'std::result::Result::is_err' and w[3] \
+                                and w[3][0][0] == 'ref' and len(w[3][0]) > 2 and w[3][0][2] == rdy:
+                            continue
                     if not nb:
                         ctx.violate(key, p, 'the end of the stream (item == None) is not detected')
                     elif nb[-1].data['outcome'] == 'T':
